@@ -5,7 +5,7 @@ HOOKS = {
               'harness (run by every check) compiles /repo\'s current working tree with the hooks on',
     'baseline_off_cmd': 'cd /repo && cargo test --workspace --no-fail-fast --offline',
     'note_add_only': 'all hook code is new and cfg-guarded (src/rapidquilt/verif.rs, fault_point/sched_point calls, two pub re-exports); exactly one existing line was rewritten to host a call: `.and_then(|_| File::create(&real_path))` in save_backup_file became a block with the same expression; one cfg-guarded hook line was later touched by the fix commit 08de233 (error context); 2d315d5 changed four cfg-guarded hook call lines (fault_point("write") -> fault_point_write) and nothing else',
-    'source_commits': ['ca1bb5c', 'd1463e7', 'e911188', '0f7972b', '2d315d5', 'e3af4d5', '99f3817', 'ea4d0b8'],
+    'source_commits': ['ca1bb5c', 'd1463e7', 'e911188', '0f7972b', '2d315d5', 'e3af4d5', '99f3817', 'ea4d0b8', '009eaf6'],
     'add_only': False,
 }
 ENGINES = [
